@@ -418,6 +418,29 @@ func (r *renderer) renderLines(o *out, lines []Line, depth int, dirName string, 
 			i = j
 			continue
 		}
+		if r.split && r.drawSplit(11, "empty") == 0 {
+			// an import that contributes no token at all: an empty or
+			// comment-only snippet, or an empty or comment-only file
+			body := []string{"", "\t# nothing here\n", "\n\n"}[r.drawSplit(2, "ebody")]
+			o.noise()
+			o.indent(depth)
+			o.sb.WriteString("import")
+			o.sep()
+			if r.drawSplit(1, "ekind") == 0 {
+				r.nsnip++
+				name := fmt.Sprintf("empty%d", r.nsnip)
+				r.snippets = append(r.snippets, "("+name+") {\n"+body+"}\n")
+				o.sb.WriteString(name)
+			} else {
+				fn, rel := r.newFileName(o.dir, "empty")
+				if body == "" {
+					body = "# a file with nothing but this comment\n" // a zero-byte file is rejected (EOF), which the statement allows
+				}
+				r.files[fn] = body
+				o.sb.WriteString(rel)
+			}
+			o.eol()
+		}
 		r.renderRun(o, lines[i:i+1], depth, dirName, col)
 		i++
 	}
